@@ -289,9 +289,45 @@ def _evaluate(part, case, stats):
     stats.add(case, rec)
 
 
+_COVER = {'lines': set(), 'on': False}
+
+
+def _cover_start():
+    """Optional line-coverage recording of pytenet (VERIF_COVER=<dir>): which library lines do the checks execute at all?
+    Used by tools/coverage_report.py to find code no check reaches; sys.monitoring fires once per line (DISABLE afterwards)."""
+    d = os.environ.get('VERIF_COVER')
+    if not d or _COVER['on'] or not hasattr(sys, 'monitoring'):
+        return
+    mon = sys.monitoring
+    root = os.path.join(os.path.realpath(os.environ.get('PYTENET_PATH', '/repo')), 'pytenet') + os.sep
+
+    def on_line(code, line):
+        fn = code.co_filename
+        if fn.startswith(root) or os.path.realpath(fn).startswith(root):
+            _COVER['lines'].add((os.path.basename(fn), line))
+        return mon.DISABLE
+    try:
+        mon.use_tool_id(mon.COVERAGE_ID, 'verif')
+    except ValueError:
+        pass
+    mon.register_callback(mon.COVERAGE_ID, mon.events.LINE, on_line)
+    mon.set_events(mon.COVERAGE_ID, mon.events.LINE)
+    _COVER['on'] = True
+
+
+def _cover_flush():
+    d = os.environ.get('VERIF_COVER')
+    if not d or not _COVER['on']:
+        return
+    os.makedirs(d, exist_ok=True)
+    with open(os.path.join(d, 'cov-%d.json' % os.getpid()), 'w') as f:
+        json.dump(sorted(_COVER['lines']), f)
+
+
 def _work(args):
     prop_id, part_name, tier, seed, shard, nshards = args
     warnings.simplefilter('ignore')
+    _cover_start()
     stats = Stats()
     t0 = time.time()
     try:
@@ -349,6 +385,7 @@ def _work(args):
         stats.harness_error = _describe(e, e.__traceback__)
     out = stats.as_dict()
     out.update(part=part_name, shard=shard, wall=time.time() - t0)
+    _cover_flush()
     return out
 
 
